@@ -308,9 +308,9 @@ def krylov_step_excess(calls, hams, target_times):
         nv = float(np.linalg.norm(vin))
         err = float(np.linalg.norm(c["out"].reshape(-1) - want)) / nv
         a2 = float(np.linalg.norm(H, 2)) * dt
-        if err <= 10 * c["tol"] + 2e-13 * (1 + a2):
+        if err <= 10 * c["tol"] + 2e-13 * (1 + a2) + 2e-10:  # 2e-10: accuracy floor of torch.linalg.matrix_exp (see C07)
             continue
-        if not c["happy"] and krylov_model.early_stop_is_avnorm_mechanism(-1j * dt * H, vin, c["iters"], c["tol"]):
+        if not c["happy"] and krylov_model.explained_by_pinned_algorithm(-1j * dt * H, vin, True, c["tol"], c["tol"], 100, c["out"], c["iters"]):
             excess += (err - 10 * c["tol"]) * nv
             known += 1
         else:
